@@ -73,7 +73,23 @@ type GateDB struct {
 	Gets      int64
 	GatedGets int64
 	SlowSleep time.Duration
+
+	failAt         int32 // > 0: the failAt-th traversal read from now on fails once (fault injection)
+	failSeen       int32
+	FaultsInjected int64
 }
+
+// ErrInjectedFault is what the one failing traversal read returns
+var ErrInjectedFault = fmt.Errorf("verif: injected read fault")
+
+// ArmFailOnce makes the n-th read (n >= 2: never the root) of the next snapshot traversal fail exactly once
+func (g *GateDB) ArmFailOnce(n int) {
+	atomic.StoreInt32(&g.failSeen, 0)
+	atomic.StoreInt32(&g.failAt, int32(n))
+}
+
+// DisarmFail cancels a pending fault
+func (g *GateDB) DisarmFail() { atomic.StoreInt32(&g.failAt, 0) }
 
 // NewGateDB creates the decorator over a fresh memorydb
 func NewGateDB() *GateDB {
@@ -106,7 +122,8 @@ func inSnapshotTraversal() bool {
 func (g *GateDB) Get(key []byte) ([]byte, error) {
 	atomic.AddInt64(&g.Gets, 1)
 	m := atomic.LoadInt32(&g.mode)
-	if m != gateOff && inSnapshotTraversal() {
+	fa := atomic.LoadInt32(&g.failAt)
+	if (m != gateOff || fa > 0) && inSnapshotTraversal() {
 		atomic.AddInt64(&g.GatedGets, 1)
 		switch m {
 		case gateHold:
@@ -122,6 +139,10 @@ func (g *GateDB) Get(key []byte) ([]byte, error) {
 		case gateSlow:
 			runtime.Gosched()
 			time.Sleep(g.SlowSleep)
+		}
+		if fa > 0 && atomic.AddInt32(&g.failSeen, 1) == fa && atomic.CompareAndSwapInt32(&g.failAt, fa, 0) {
+			atomic.AddInt64(&g.FaultsInjected, 1)
+			return nil, ErrInjectedFault
 		}
 	}
 	return g.Raw.Get(key)
@@ -368,6 +389,18 @@ type Block struct {
 	// LeakShape: inside this block an account had a storage write, was then removed, and was re-created with a
 	// storage write (see C09's garbage shape key)
 	LeakShape bool
+
+	// Script is the exact sequence of account operations of this block (recorded by Commit), so that the identical
+	// block can be processed again after a rollback (Recommit)
+	Script []Prim
+}
+
+// Prim is one recorded account operation of a block
+type Prim struct {
+	Kind    string // "rm" (RemoveAccount, reverted when it fails), "touch" (load, balance+1, code, slots, save), "slot"
+	Addr    int
+	SetCode *string
+	Writes  [][2]string // key, value ("" deletes)
 }
 
 func cloneAccts(in map[string]*Acct) map[string]*Acct {
@@ -571,11 +604,13 @@ func (w *World) Commit(rng *vk.Rand, initial bool, restore *Block) (*Block, erro
 	storTouched := map[string]bool{}  // accounts with a storage write in this block
 	removedDirty := map[string]bool{} // ... that were removed afterwards
 	leakShape := false
+	var script []Prim
 	for j := 0; j < nMut; j++ {
 		ai := rng.Intn(len(Addrs))
 		a := Addrs[ai]
 		m := nb[string(a)]
 		if !initial && !w.Monotone && m != nil && rng.Chance(1, 8) {
+			script = append(script, Prim{Kind: "rm", Addr: ai})
 			jl := adb.JournalLen()
 			if errR := adb.RemoveAccount(a); errR == nil {
 				delete(nb, string(a))
@@ -606,11 +641,14 @@ func (w *World) Commit(rng *vk.Rand, initial bool, restore *Block) (*Block, erro
 		_ = ua.AddToBalance(big.NewInt(1))
 		m.Bal++
 		d := fmt.Sprintf("A%d bal+1", ai)
+		pr := Prim{Kind: "touch", Addr: ai}
 		if rng.Chance(1, 3) && (initial || !w.Monotone) {
 			c := ""
 			if x := rng.Intn(len(Codes) + 1); x < len(Codes) {
 				c = Codes[x]
 			}
+			cc := c
+			pr.SetCode = &cc
 			ua.SetCode([]byte(c))
 			m.Code = c
 			d += " code=" + c
@@ -636,6 +674,7 @@ func (w *World) Commit(rng *vk.Rand, initial bool, restore *Block) (*Block, erro
 				w.uniq++
 				v = fmt.Sprintf("u%d", w.uniq)
 			}
+			pr.Writes = append(pr.Writes, [2]string{k, v})
 			if err = ua.DataTrieTracker().SaveKeyValue([]byte(k), []byte(v)); err != nil {
 				return nil, err
 			}
@@ -655,6 +694,7 @@ func (w *World) Commit(rng *vk.Rand, initial bool, restore *Block) (*Block, erro
 		if err = adb.SaveAccount(ua); err != nil {
 			return nil, err
 		}
+		script = append(script, pr)
 		desc = append(desc, d)
 	}
 	// flip-flop inside one block: a slot is changed and restored, so the same node hashes are both obsoleted
@@ -685,6 +725,7 @@ func (w *World) Commit(rng *vk.Rand, initial bool, restore *Block) (*Block, erro
 			if removedDirty[string(a)] {
 				leakShape = true
 			}
+			script = append(script, Prim{Kind: "slot", Addr: ai, Writes: [][2]string{{k, tmp}}}, Prim{Kind: "slot", Addr: ai, Writes: [][2]string{{k, old}}})
 			if err = w.writeSlot(a, m, k, tmp); err != nil {
 				return nil, err
 			}
@@ -722,6 +763,7 @@ func (w *World) Commit(rng *vk.Rand, initial bool, restore *Block) (*Block, erro
 			if removedDirty[string(Addrs[cd.ai])] {
 				leakShape = true
 			}
+			script = append(script, Prim{Kind: "slot", Addr: cd.ai, Writes: [][2]string{{cd.k, cd.v}}})
 			if err = w.writeSlot(Addrs[cd.ai], nb[string(Addrs[cd.ai])], cd.k, cd.v); err != nil {
 				return nil, err
 			}
@@ -733,7 +775,10 @@ func (w *World) Commit(rng *vk.Rand, initial bool, restore *Block) (*Block, erro
 	if err != nil {
 		return nil, err
 	}
-	b := &Block{Height: w.height, Root: cp(root), Accts: nb, Desc: strings.Join(desc, "; "), LeakShape: leakShape}
+	if script == nil {
+		script = []Prim{}
+	}
+	b := &Block{Height: w.height, Root: cp(root), Accts: nb, Desc: strings.Join(desc, "; "), LeakShape: leakShape, Script: script}
 	if leakShape {
 		w.Counts["blocks_with_storage_change+remove+recreate"]++
 	}
@@ -742,6 +787,93 @@ func (w *World) Commit(rng *vk.Rand, initial bool, restore *Block) (*Block, erro
 	w.Chain = append(w.Chain, b)
 	w.cur = nb
 	w.Counts["commit"]++
+	return b, nil
+}
+
+// Recommit processes the identical block again on top of the current head: the same account operations in the same
+// order (this is what a node does when it re-processes a block after rolling it back). orig must have been produced
+// by Commit on the same parent. The resulting root must equal orig.Root.
+func (w *World) Recommit(orig *Block) (*Block, error) {
+	if orig.Script == nil {
+		return nil, fmt.Errorf("block has no recorded script")
+	}
+	adb := w.Env.Adb
+	nb := cloneAccts(w.cur)
+	cu, err := w.loadUser(CounterAddr)
+	if err != nil {
+		return nil, err
+	}
+	cu.IncreaseNonce(1)
+	if err = adb.SaveAccount(cu); err != nil {
+		return nil, err
+	}
+	if nb[string(CounterAddr)] == nil {
+		nb[string(CounterAddr)] = &Acct{Stor: map[string]string{}}
+	}
+	nb[string(CounterAddr)].Nonce++
+	for _, p := range orig.Script {
+		a := Addrs[p.Addr]
+		switch p.Kind {
+		case "rm":
+			jl := adb.JournalLen()
+			if errR := adb.RemoveAccount(a); errR == nil {
+				delete(nb, string(a))
+			} else if e2 := adb.RevertToSnapshot(jl); e2 != nil {
+				return nil, fmt.Errorf("revert after failed remove: %v (remove error %v)", e2, errR)
+			}
+		case "touch":
+			ua, errL := w.loadUser(a)
+			if errL != nil {
+				return nil, errL
+			}
+			m := nb[string(a)]
+			if m == nil {
+				m = &Acct{Stor: map[string]string{}}
+				nb[string(a)] = m
+			}
+			_ = ua.AddToBalance(big.NewInt(1))
+			m.Bal++
+			if p.SetCode != nil {
+				ua.SetCode([]byte(*p.SetCode))
+				m.Code = *p.SetCode
+			}
+			for _, kv := range p.Writes {
+				if err = ua.DataTrieTracker().SaveKeyValue([]byte(kv[0]), []byte(kv[1])); err != nil {
+					return nil, err
+				}
+				if kv[1] == "" {
+					delete(m.Stor, kv[0])
+				} else {
+					m.Stor[kv[0]] = kv[1]
+				}
+			}
+			if err = adb.SaveAccount(ua); err != nil {
+				return nil, err
+			}
+		case "slot":
+			m := nb[string(a)]
+			if m == nil {
+				return nil, fmt.Errorf("recorded slot write on an account the model does not have")
+			}
+			if err = w.writeSlot(a, m, p.Writes[0][0], p.Writes[0][1]); err != nil {
+				return nil, err
+			}
+		}
+	}
+	root, err := adb.Commit()
+	if err != nil {
+		return nil, err
+	}
+	if !bytes.Equal(root, orig.Root) {
+		return nil, fmt.Errorf("re-processed block has root %x, the first processing gave %x", root[:4], orig.Root[:4])
+	}
+	b := &Block{Height: w.height, Root: cp(root), Accts: nb, Desc: "re-processed identical block [" + orig.Desc + "]", LeakShape: orig.LeakShape, Script: orig.Script}
+	b.Hdr = &block.Header{Nonce: w.height, Round: w.height, RootHash: cp(root)}
+	w.height = b.Height + 1
+	w.Chain = append(w.Chain, b)
+	w.cur = nb
+	w.Counts["commit"]++
+	w.Counts["recommit_identical_block"]++
 	return b, nil
 }
 
